@@ -965,7 +965,23 @@ static void mutate_once(struct buf *b) {
   unsigned na = attr_span(b, (unsigned) -1, NULL), nl = line_span(b, (unsigned) -1, NULL, NULL);
   unsigned op = rng_below(100);
   if (!b->n) { b_set(b, "<", 1); return; }
-  if (op < 34 && na) {                                    /* replace an attribute value */
+  if (op < 4 && na) {                                     /* one value for a whole family of attributes: every attribute of the same
+                                                             name, or every allowed_* / complete_* / *cpuset / *nodeset attribute */
+    attr_span(b, rng_below(na), &sp);
+    char fam[64]; size_t fl = sp.nl < sizeof fam - 1 ? sp.nl : sizeof fam - 1; memcpy(fam, b->p + sp.ns, fl); fam[fl] = 0;
+    int mode = 0;   /* 0 same name, 1 same prefix up to '_', 2 same suffix after '_' */
+    char *us = strchr(fam, '_');
+    if (us && rng_chance(60)) { if (rng_chance(50)) { us[1] = 0; mode = 1; } else { memmove(fam, us, strlen(us) + 1); mode = 2; } }
+    size_t fn = strlen(fam);
+    size_t n = rng_chance(50) ? (size_t) sprintf((char *) tmp, "%s", rng_chance(70) ? "0x0" : "0x00000001") : gen_value(b, tmp, sizeof tmp);
+    for (unsigned k = na; k-- > 0; ) {      /* from the last one: earlier spans stay valid */
+      attr_span(b, k, &sp2);
+      int hit = mode == 0 ? (sp2.nl == fn && !memcmp(b->p + sp2.ns, fam, fn))
+              : mode == 1 ? (sp2.nl >= fn && !memcmp(b->p + sp2.ns, fam, fn))
+              : (sp2.nl >= fn && !memcmp(b->p + sp2.ns + sp2.nl - fn, fam, fn));
+      if (hit) b_splice(b, sp2.vs, sp2.vl, tmp, n);
+    }
+  } else if (op < 34 && na) {                             /* replace an attribute value */
     attr_span(b, rng_below(na), &sp);
     size_t n = gen_value(b, tmp, sizeof tmp);
     b_splice(b, sp.vs, sp.vl, tmp, n);
